@@ -415,7 +415,7 @@ fn make_tables(rng: &mut Rng) -> Vec<(&'static str, Arc<MemTable>)> {
         let c: StringArray = (0..n).map(|_| if rng.chance(1, 6) { None } else { Some(format!("s{}", rng.below(4))) }).collect();
         RecordBatch::try_new(s1.clone(), vec![Arc::new(a) as ArrayRef, Arc::new(b), Arc::new(c)]).unwrap()
     };
-    let parts1: Vec<Vec<RecordBatch>> = (0..3).map(|p| (0..(1 + p)).map(|_| mk1(rng, 5 + rng.below(9) as usize)).collect()).collect();
+    let parts1: Vec<Vec<RecordBatch>> = (0..3).map(|p| (0..(1 + p)).map(|_| { let n = 5 + rng.below(9) as usize; mk1(rng, n) }).collect()).collect();
     out.push(("t1", Arc::new(MemTable::try_new(s1.clone(), parts1).unwrap())));
     let s2 = Arc::new(Schema::new(vec![Field::new("a", DataType::Int32, true), Field::new("d", DataType::Int32, false)]));
     let mk2 = |rng: &mut Rng, n: usize| {
@@ -423,7 +423,7 @@ fn make_tables(rng: &mut Rng) -> Vec<(&'static str, Arc<MemTable>)> {
         let d: Int32Array = (0..n).map(|_| Some(rng.range(0, 100) as i32)).collect();
         RecordBatch::try_new(s2.clone(), vec![Arc::new(a) as ArrayRef, Arc::new(d)]).unwrap()
     };
-    let parts2: Vec<Vec<RecordBatch>> = (0..2).map(|_| (0..2).map(|_| mk2(rng, 4 + rng.below(6) as usize)).collect()).collect();
+    let parts2: Vec<Vec<RecordBatch>> = (0..2).map(|_| (0..2).map(|_| { let n = 4 + rng.below(6) as usize; mk2(rng, n) }).collect()).collect();
     out.push(("t2", Arc::new(MemTable::try_new(s2.clone(), parts2).unwrap())));
     let s3 = Arc::new(Schema::new(vec![Field::new("k", DataType::Int64, false), Field::new("s", DataType::Utf8, false)]));
     let mk3 = |rng: &mut Rng, n: usize| {
@@ -496,17 +496,17 @@ fn preorder(plan: &Arc<dyn ExecutionPlan>, out: &mut Vec<(Arc<dyn ExecutionPlan>
 }
 
 async fn plan_oracle(run: &mut Run, rng: &mut Rng) {
-    let rounds = run.budget(2, 40);
+    let rounds = run.budget(4, 60);
     for round in 0..rounds {
         let tables = make_tables(rng);
         let qs = queries(rng);
         for (qi, q) in qs.iter().enumerate() {
-            let ncfg = if run.thorough() { 3 } else { 2 };
+            let ncfg = if q.contains("big") { 5 } else if run.thorough() { 3 } else { 2 };
             for _ in 0..ncfg {
                 let cfg = Cfg {
                     partitions: *rng.pick(&[1usize, 4]),
                     batch_size: *rng.pick(&[3usize, 8192]),
-                    mem_limit: if q.contains("big") && rng.chance(2, 3) { Some(*rng.pick(&[60_000usize, 120_000])) } else { None },
+                    mem_limit: if q.contains("big") && rng.chance(3, 4) { Some(*rng.pick(&[80_000usize, 120_000, 200_000, 400_000])) } else { None },
                 };
                 let factory = Arc::new(CaptureFactory::default());
                 let ctx = make_ctx(cfg, &tables, Arc::clone(&factory));
@@ -524,6 +524,7 @@ async fn plan_oracle(run: &mut Run, rng: &mut Rng) {
                     Err(e) => {
                         let m = e.to_string();
                         run.count(if m.contains("Resources exhausted") { "plan:resources-exhausted" } else { "plan:exec-error" });
+                        run.count(&format!("plan:failed:q{qi}:{:?}", cfg.mem_limit));
                         continue;
                     }
                 };
@@ -537,6 +538,8 @@ async fn plan_oracle(run: &mut Run, rng: &mut Rng) {
                     Ok((written, nfiles)) => {
                         if nfiles > 0 {
                             run.count("plan:spilled");
+                            run.count(&format!("plan:spilled:q{qi}:{:?}", cfg.mem_limit));
+                            run.add("spill:rows-written", written as u64);
                         }
                         run.oracle(
                             spilled == written,
@@ -559,10 +562,14 @@ async fn plan_oracle(run: &mut Run, rng: &mut Rng) {
                     let pn = &nodes[p].0;
                     let stops_early = pn.fetch().is_some() || pn.name().contains("Limit");
                     // a join whose other input is empty does not read this input to the end
-                    let join_with_empty_side = pn.name().contains("Join") && pn.children().iter().any(|c| c.metrics().and_then(|m| m.output_rows()).unwrap_or(0) == 0);
+                    let join_with_empty_side = pn.name().contains("Join") && pn.children().iter().any(|c| c.metrics().and_then(|m| m.output_rows()) == Some(0));
                     eligible[i] = eligible[p] && !stops_early && !join_with_empty_side;
                 }
-                for i in 1..nodes.len() {
+                // under a memory limit the number of rows a PARTIAL aggregation emits depends on the
+                // memory pressure at that moment (early emission), which differs when the sub-plan
+                // runs alone: node-by-node comparison only without a limit
+                let upto = if cfg.mem_limit.is_some() { 0 } else { nodes.len() };
+                for i in 1..upto {
                     let name = nodes[i].0.name().to_string();
                     if !eligible[i] {
                         run.count("node:skipped-ancestor-may-stop-early");
